@@ -362,10 +362,11 @@ def run(ctx: Ctx, repo: Repo, tier: str) -> None:
               "sqlite: GROUP BY over all selected columns / DISTINCT returns one row per distinct tuple; LIMIT ? bounds the row count",
               "python sqlite3: `with conn:` commits on normal exit and rolls back on exception; an implicit BEGIN precedes the first INSERT")
     ctx.assume("atomicity across processes, kills and reopen is provided by sqlite given one transaction per batch")
-    rule_query(ctx, repo)
-    rule_filter(ctx, repo)
-    rule_add(ctx, repo)
-    rule_retry(ctx, repo)
-    rule_serialize(ctx, repo)
-    rule_list_modules(ctx, repo)
-    rule_schema(ctx, repo)
+    ctx.attempt(rule_query, ctx, repo)
+    ctx.attempt(rule_filter, ctx, repo)
+    ctx.attempt(rule_add, ctx, repo)
+    ctx.attempt(rule_retry, ctx, repo)
+    ctx.attempt(rule_serialize, ctx, repo)
+    ctx.attempt(rule_list_modules, ctx, repo)
+    ctx.attempt(rule_schema, ctx, repo)
+    ctx.settle()
